@@ -6,6 +6,8 @@ import (
 	"go/token"
 	"go/types"
 	"sort"
+
+	"github.com/quasilyte/go-ruleguard/ruleguard/quasigo"
 )
 
 // VerifFindType drives engineState.FindType the way the GetType/GetInterface natives do during Run:
@@ -40,4 +42,10 @@ func VerifPkgCache(e *Engine) []string {
 	}
 	sort.Strings(paths)
 	return paths
+}
+
+// VerifNativeNames lists the native symbols bound in the engine's quasigo environment, in id order
+// (`qualifier.name`: what custom filter and Do functions can call).
+func VerifNativeNames(e *Engine) []string {
+	return quasigo.VerifNativeNames(e.impl.state.env)
 }
